@@ -73,7 +73,7 @@ class PKI:
         self.tag = tag
         self.root_key = ec_key(f"{tag}_root")
         self.root_name = name(root_cn)
-        self.root = make_cert(self.root_name, self.root_name, self.root_key.public_key(), self.root_key, nb=root_nb, na=root_na, ca=True)
+        self.root = make_cert(self.root_name, self.root_name, self.root_key.public_key(), self.root_key, nb=root_nb, na=root_na, ca=True, serial=4242)
         self.inters = []
         self.inter_keys = []
         issuer_name, issuer_key = self.root_name, self.root_key
@@ -394,23 +394,37 @@ def build(s):
         if s.roots_mode == "rp":
             roots = {fmtname: [pki.root_pem()]}
         elif s.roots_mode == "several":
-            roots = {fmtname: [PKI("Z").root_pem(), pki.root_pem()]}
+            roots = {fmtname: [PKI("Z", root_cn="Unrelated Root").root_pem(), pki.root_pem()]}
         elif s.roots_mode == "other-fmt":
             other = [f for f in ("packed", "tpm", "fido-u2f", "apple") if f != fmtname][0]
             roots = {other: [pki.root_pem()]}
         elif s.roots_mode == "impostor":
             roots = {fmtname: [PKI("Y", root_cn="Forged Root").root_pem()]}      # same name, other key
+        elif s.roots_mode == "unrelated":
+            roots = {fmtname: [PKI("Z", root_cn="Unrelated Root").root_pem()]}
+        elif s.roots_mode == "isolation":
+            other = [f for f in ("packed", "tpm", "fido-u2f", "apple") if f != fmtname][0]
+            roots = {fmtname: [PKI("Z", root_cn="Unrelated Root").root_pem()], other: [pki.root_pem()]}
         elif s.roots_mode == "none":
             roots = {}
     if "roots_override" in k:
         roots = k["roots_override"]
-    if s.fmt in ("apple", "android-key", "android-safetynet") and s.roots_mode == "rp":
-        # built-in anchors carry the trust; RP supplies nothing unless asked
-        roots = k.get("roots_override", {})
-    if s.roots_mode in ("impostor-builtin",):
-        for f in builtin:
-            if builtin[f]:
-                builtin[f] = [PKI("Y", root_cn="Forged Root").root_pem()]
+    if s.fmt in ("apple", "android-key", "android-safetynet"):
+        if s.roots_mode == "rp":
+            # built-in anchors carry the trust; RP supplies nothing unless asked
+            roots = k.get("roots_override", {})
+        elif s.roots_mode == "rp-only":
+            # the (substituted) built-in anchor is unrelated; the RP-supplied root for this format carries the trust
+            roots = {fmtname: [pki.root_pem()]}
+            builtin[s.fmt] = [PKI("Z", root_cn="Unrelated Root").root_pem()]
+        elif s.roots_mode in ("impostor", "unrelated"):
+            builtin[s.fmt] = roots[fmtname]
+            roots = {}
+        elif s.roots_mode == "isolation":
+            # the right root is configured, but only for ANOTHER format; this format's anchors are unrelated
+            builtin[s.fmt] = roots.pop(fmtname)
+        elif s.roots_mode in ("none", "other-fmt"):
+            builtin[s.fmt] = [PKI("Z", root_cn="Unrelated Root").root_pem()]
     algs = s.algs
     if algs is None and s.kind == "RS1":
         algs = [-7, -8, -36, -37, -38, -39, -257, -258, -259, -65535]       # "RS1 when allowed"
